@@ -15,7 +15,6 @@ const maxDepInlineInstrs = 60
 
 var effectFreePkgs = []string{
 	"github.com/onosproject/onos-lib-go/pkg/logging",
-	"github.com/onosproject/onos-lib-go/pkg/errors",
 	"fmt", "strings", "strconv", "errors", "time", "context", "regexp", "regexp/syntax",
 	"google.golang.org/grpc/status", "google.golang.org/grpc/codes", "google.golang.org/grpc/metadata",
 	"math", "math/big", "unicode", "unicode/utf8", "github.com/google/uuid", "math/rand", "path", "path/filepath",
@@ -41,7 +40,7 @@ var inlineDepPkgs = []string{
 	"github.com/onosproject/onos-api/go/onos/",
 	"github.com/openconfig/gnmi/proto/",
 	"github.com/onosproject/onos-lib-go/pkg/controller",
-	"github.com/onosproject/onos-lib-go/pkg/uri",
+	"github.com/onosproject/onos-lib-go/pkg/errors",
 }
 
 func pkgOfKey(key string) string {
@@ -203,7 +202,14 @@ func (x *Exec) canInline(fn *ssa.Function, f *frame) bool {
 		pkg = fn.Object().Pkg().Path()
 	}
 	if strings.HasPrefix(pkg, ModPath) {
-		return n <= maxInlineInstrs
+		rootPkg := ""
+		if x.root.Pkg != nil {
+			rootPkg = x.root.Pkg.Pkg.Path()
+		}
+		if pkg == rootPkg {
+			return n <= maxInlineInstrs
+		}
+		return n <= maxDepInlineInstrs
 	}
 	for _, p := range inlineDepPkgs {
 		if strings.HasPrefix(pkg, p) {
@@ -401,13 +407,13 @@ func (x *Exec) havocPlace(env *Env, m Expr, st *State, reach string) error {
 			ds := "(Array Int (Array " + ks + " Bool))"
 			d := st.Get(dn, ds)
 			st.Set(dn, ds, Store(d, v.L[0], x.sc.Fresh("hvdom", "(Array "+ks+" Bool)")))
-			x.markWritten(dn)
+			x.markWrittenAt(dn, v.L[0])
 			for _, l := range x.eng.layout(mt.Elem()) {
 				vn := x.mvName(mt, l.Path)
 				vs := "(Array Int (Array " + ks + " " + l.Sort + "))"
 				a := st.Get(vn, vs)
 				st.Set(vn, vs, Store(a, v.L[0], x.sc.Fresh("hvval", "(Array "+ks+" "+l.Sort+")")))
-				x.markWritten(vn)
+				x.markWrittenAt(vn, v.L[0])
 			}
 			return nil
 		}
@@ -425,9 +431,33 @@ func (x *Exec) havocPlace(env *Env, m Expr, st *State, reach string) error {
 				sort := "(Array Int (Array Int " + l.Sort + "))"
 				a := st.Get(name, sort)
 				st.Set(name, sort, Store(a, v.L[0], x.sc.Fresh("hvrow", "(Array Int "+l.Sort+")")))
-				x.markWritten(name)
+				x.markWrittenAt(name, v.L[0])
 			}
 			return nil
+		}
+	}
+	// every("T").field : the field of every object of type T
+	if s, ok := m.(*ESel); ok {
+		if c, ok := s.X.(*ECall); ok {
+			if id, ok := c.Fn.(*EIdent); ok && id.Name == "every" && len(c.Args) == 1 {
+				ts, ok := c.Args[0].(*EStr)
+				if !ok {
+					return fmt.Errorf("every(\"T\").field wants a type name")
+				}
+				t, err := x.eng.lookupType(ts.V, env.imports, env.pkgPath)
+				if err != nil {
+					return err
+				}
+				_, ls := x.eng.subLayout(t, s.Name)
+				if len(ls) == 0 {
+					return fmt.Errorf("type %s has no field %s", ts.V, s.Name)
+				}
+				for _, l := range ls {
+					st.Havoc(x.hName(t, joinPath(s.Name, l.Path)), "(Array Int "+l.Sort+")")
+					x.markWritten(x.hName(t, joinPath(s.Name, l.Path)))
+				}
+				return nil
+			}
 		}
 	}
 	if id, ok := m.(*EIdent); ok {
@@ -464,7 +494,7 @@ func (x *Exec) havocPlace(env *Env, m Expr, st *State, reach string) error {
 						as := "(Array Int " + sort + ")"
 						a := st.Get(name, as)
 						st.Set(name, as, Store(a, pv.L[0], x.sc.Fresh("hvg", sort)))
-						x.markWritten(name)
+						x.markWrittenAt(name, pv.L[0])
 						return nil
 					}
 				}
@@ -537,7 +567,7 @@ func (x *Exec) builtin(b *ssa.Builtin, common *ssa.CallCommon, args []Val, resT 
 		m := args[0].L[0]
 		// delete on a nil map is a no-op
 		st.Set(dn, ds, Ite(Eq(m, "0"), d, Store(d, m, Store(Select(d, m), args[1].L[0], "false"))))
-		x.markWritten(dn)
+		x.markWrittenAt(dn, m)
 		return Val{Typ: resT}
 	case "copy":
 		// copy(dst, src): contents of dst havocked
@@ -547,7 +577,7 @@ func (x *Exec) builtin(b *ssa.Builtin, common *ssa.CallCommon, args []Val, resT 
 				sort := "(Array Int (Array Int " + l.Sort + "))"
 				a := st.Get(name, sort)
 				st.Set(name, sort, Store(a, args[0].L[0], x.sc.Fresh("copyrow", "(Array Int "+l.Sort+")")))
-				x.markWritten(name)
+				x.markWrittenAt(name, args[0].L[0])
 			}
 		}
 		x.note("copy(): destination contents havocked")
